@@ -37,7 +37,72 @@ const (
 
 func c01HasCustom(t *c16Tree) bool { return t.Schema >= 0 || (t.HasBase && t.BaseSchema >= 0) }
 
+// genTwoCustom01: histories with two DISTINCT custom schemas where T's output depends on something only its own
+// schema defines: T installs schema #2, which gives a CRD list a merge key; an earlier build installed schema #1
+// and made it load. (A SetSchema that forgets to re-arm initSchema when one custom schema replaces another leaves
+// schema #2 unparsed: T alone merges the list, T after H replaces it.)
+func genTwoCustom01(g *Rng) c01Case {
+	c := c01Case{}
+	kind := g.Pick([]string{"Foo", "Bar"})
+	definesWithKey := func(s c16Schema) bool {
+		if !s.Valid {
+			return false
+		}
+		for _, d := range s.Defs {
+			for _, t := range d.Tms {
+				if t.Kind == kind && d.Mk {
+					return true
+				}
+			}
+		}
+		return false
+	}
+	var s1, s2 c16Schema
+	for i := 0; i < 200; i++ {
+		s1 = genSchema16(g.Fork(), 1)
+		if s1.Valid && len(s1.Defs) > 0 && (g.Chance(30) || !definesWithKey(s1)) {
+			break
+		}
+	}
+	for i := 0; i < 200; i++ {
+		s2 = genSchema16(g.Fork(), 2)
+		if definesWithKey(s2) {
+			break
+		}
+	}
+	c.Schemas = []c16Schema{s1, s2}
+	if g.Chance(30) {
+		c.Schemas = append(c.Schemas, genSchema16(g.Fork(), 3))
+	}
+	// H: 1-3 builds; one of them installs schema #1 and queries a CRD kind (so that it is parsed)
+	nh := 1 + g.Intn(3)
+	pos := g.Intn(nh)
+	for i := 0; i < nh; i++ {
+		var t *c16Tree
+		if i == pos {
+			t = &c16Tree{Schema: 0, BaseSchema: -1, Namespace: g.Chance(80),
+				Res: []c16Res{{Kind: g.Pick([]string{"Foo", "Bar"}), Name: "h0"}, {Kind: "Deployment", Name: "h1"}}}
+			if g.Chance(60) {
+				t.Patches = []string{"h0"}
+			}
+		} else {
+			t = genTree16(g.Fork(), len(c.Schemas), g.Chance(40))
+		}
+		c.H = append(c.H, t)
+	}
+	// after the schema-#1 build, a build without custom schema would not change customSchema; keep the tail as generated
+	c.T = &c16Tree{Schema: 1, BaseSchema: -1, Namespace: g.Chance(85),
+		Res: []c16Res{{Kind: kind, Name: "tq"}}, Patches: []string{"tq"}}
+	if g.Chance(50) {
+		c.T.Res = append(c.T.Res, c16Res{Kind: g.Pick(c16Kinds[:3]), Name: "tr"})
+	}
+	return c
+}
+
 func genCase01(g *Rng) c01Case {
+	if g.Chance(30) {
+		return genTwoCustom01(g.Fork())
+	}
 	c := c01Case{}
 	ns := g.Intn(3)
 	if g.Chance(60) && ns == 0 {
@@ -145,6 +210,42 @@ func evalCase01(c c01Case, res []c16SeqRes) c01Obs {
 				Detail: fmt.Sprintf("T after H, repetition %d differs:\n--- first\n%s\n--- this\n%s", i, o.After, stepText(a)), Replay: c})
 		}
 	}
+	// the build's OWN custom schema must take effect whatever ran before: AddDefinitions overwrites by type meta, so
+	// for a CRD kind that T's top-level schema defines, the patched list is merged iff that definition has a merge key
+	ownSchema := func(which string, st c16Step) {
+		if st.Class != ClsOk || c.T.Schema < 0 || c.T.Ver != nil || !c.Schemas[c.T.Schema].Valid {
+			return
+		}
+		_, listLen, err := c16Reveal(st.Out)
+		if err != nil {
+			return
+		}
+		for _, p := range c.T.Patches {
+			res, ok := c.T.find(p)
+			if !ok || (res.Kind != "Foo" && res.Kind != "Bar") {
+				continue
+			}
+			defined, mk := false, false
+			for _, d := range c.Schemas[c.T.Schema].Defs {
+				for _, tm := range d.Tms {
+					if tm.Kind == res.Kind {
+						defined, mk = true, d.Mk
+					}
+				}
+			}
+			n, have := listLen[res.Name]
+			if !defined || !have {
+				continue
+			}
+			if (n == 2) != mk {
+				o.Problems = append(o.Problems, OracleViolation{Law: "own_schema_applied", Class: "C01/own-custom-schema-not-applied",
+					Detail: fmt.Sprintf("T (%s): its own custom schema defines %s with merge key=%v, but the patched list of %s has %d element(s)\n%s",
+						which, res.Kind, mk, res.Name, n, st.Out), Replay: c})
+			}
+		}
+	}
+	ownSchema("alone", alone)
+	ownSchema("after H", after)
 	customInH := false
 	for _, h := range c.H {
 		if c01HasCustom(h) {
@@ -234,6 +335,13 @@ func runC01S(r *Run, rng *Rng, tier string) error {
 		r.Count("T_class_alone", o.AloneClass)
 		r.Count("T_class_after", o.AfterClass)
 		r.Count("differs", fmt.Sprint(o.After != o.Alone))
+		nCustom := map[int]bool{}
+		for _, h := range append(append([]*c16Tree{}, c.H...), c.T) {
+			if h.Schema >= 0 && h.Ver == nil {
+				nCustom[h.Schema] = true
+			}
+		}
+		r.Count("distinct_custom_schemas_installed", fmt.Sprint(len(nCustom)))
 		for _, p := range o.Problems {
 			r.Violation(p)
 		}
